@@ -345,7 +345,7 @@ def int_inputs(T, rng):
             "rotate": [t, Ri]}
 
 
-def compare_presentations(chk, T, n, rng, kinds=PRES_KINDS):
+def compare_presentations(chk, T, n, rng, kinds=PRES_KINDS, tetr_open=True):
     """Every public kernel of pydrex.tensors called with integer-valued inputs in every presentation of PRES_KINDS
     (for `rotate`: the tensor with a Haar rotation, the rotation matrix, and both); the value must be the extracted
     model's value on the float64 numbers, or the presentation must be refused loudly.
@@ -396,7 +396,7 @@ def compare_presentations(chk, T, n, rng, kinds=PRES_KINDS):
                 a = r[1][idx] if idx is not None and 0 <= idx < len(r[1]) else None
                 b = m[1][idx] if idx is not None and 0 <= idx < len(m[1]) else None
                 detail = f"{label}: component {idx}: implementation {a!r} vs model on the same numbers {b!r}"
-                if name == "tetr" and kind in PRES_INTEGER:
+                if name == "tetr" and kind in PRES_INTEGER and tetr_open:
                     hist[key] = "known finding"
                     known.append((name, label, detail))
                 else:
@@ -405,7 +405,7 @@ def compare_presentations(chk, T, n, rng, kinds=PRES_KINDS):
     return bad, known
 
 
-def compare_polar(chk, T, n, rng, families=POLAR_FAMILIES):
+def compare_polar(chk, T, n, rng, families=POLAR_FAMILIES, right_singular_open=True):
     """polar_decompose, both variants, n inputs from each family of POLAR_FAMILIES.  Per case:
       1. the Python source (py_func) is run with NumPy's LAPACK and `np.linalg.svd` recorded: it must be called exactly
          once, on the input; the SVD oracle hypotheses are residual-checked on what it returned;
@@ -464,17 +464,26 @@ def compare_polar(chk, T, n, rng, families=POLAR_FAMILIES):
                       sample={"entry": name, "family": fam, "impl": r[0] if r[0] == "ERR" else [float(v) for v in r[1][:3]],
                               "model": mr[0] if mr[0] == "ERR" else [float(v) for v in mr[1][:3]]})
         if not left and singular:
-            # open finding: M @ inv(U_m) with a singular stretch -- LinAlgError or a non-orthogonal factor
+            # finding: M @ inv(U_m) with a singular stretch -- LinAlgError or a non-orthogonal factor.  While it is
+            # open, a reproduction is reported as KNOWN-FINDING; a result that satisfies the clauses (the repaired
+            # source) is checked like every other case
+            why = None
             if r[0] == "ERR":
-                known.append((name, fam, f"{r[1]}: {r[2][:80]}", m))
+                why = f"{r[1]}: {r[2][:80]}"
             else:
-                fl = polar_clauses(m, r[1][:9].reshape(3, 3), r[1][9:].reshape(3, 3), left)
-                if fl:
-                    known.append((name, fam, "; ".join(fl), m))
-            continue
+                fl = polar_clauses(m / sa, r[1][:9].reshape(3, 3), r[1][9:].reshape(3, 3) / sa, left)
+                why = "; ".join(fl) or None
+            if why is not None:
+                if right_singular_open:
+                    known.append((name, fam, why, m))
+                else:
+                    bad.append((name, c, "right variant on a singular matrix: " + why))
+                continue
         # 2. generated code on the recorded oracle outputs vs the interpreted source
-        cond = float(S.max() / max(S.min(), 1e-300))
-        tol = 1e-10 if left else max(1e-10, 1e-13 * cond ** 2)
+        cond = min(float(S.max() / max(S.min(), 1e-300)), 1e150)
+        # the original right variant multiplies by an inverse (error ~ cond^2 eps); a singular input only gets here when
+        # the call returned a pair that satisfies the clauses (the repaired source: no inverse)
+        tol = 1e-10 if left else (1e-9 if singular else max(1e-10, min(1e-13 * cond ** 2, 1e-2)))
         if isinstance(iout, Exception) or mr[0] == "ERR":
             if not (isinstance(iout, Exception) and mr[0] == "ERR"):
                 bad.append((name, c, f"interpreted source: {type(iout).__name__ if isinstance(iout, Exception) else 'OK'}, generated model: {mr[0]}"))
